@@ -98,3 +98,14 @@ def concrete(v):
         from crosshair.core import deep_realize
         return deep_realize(v)
     return v
+
+
+def R(tag, fmt='', *vals):
+    """Reason string: 'tag' alone under the tracer (formatting symbolic values would realise
+    them and fan the path out per value); 'tag: details' natively (replay)."""
+    if MODE == 'symbolic' or not fmt:
+        return tag
+    try:
+        return tag + ': ' + (fmt % vals)
+    except Exception:
+        return tag + ': ' + fmt + ' ' + repr(vals)
